@@ -232,45 +232,64 @@ def scaleFactorMissingRep (o : Obs α) (newIdl : List (String × Idl)) (ens : St
 
 def addLists (a b : List α) : List α := List.zipWith (· + ·) a b
 
-/-- `derived_observable(func, data, man_grad=grad)` for a scalar result. `func` is the
-    user function (an external parameter of the model); `covEq` stands for `np.allclose`. -/
-def derivedObs (func : List α → α) (grad : List α) (data : List (Obs α))
-    (covEq : List (List α) → List (List α) → Bool) : Except DerErr (Obs α) := do
-  if grad.length != data.length then throw .gradShape
-  -- allcov with the consistency check
-  let mut allcov : List (String × List (List α)) := []
-  for o in data do
-    for c in o.covs do
-      match allcov.find? (·.1 == c.name) with
-      | some (_, m) => if !(covEq m c.cov) then throw (.inconsistentCov c.name)
-      | none => allcov := allcov ++ [(c.name, c.cov)]
+/-- the `allcov` dictionary with its consistency check (obs.py 1210-1217) -/
+def collectCov (covEq : List (List α) → List (List α) → Bool) :
+    List (CovIn α) → List (String × List (List α)) → Except DerErr (List (String × List (List α)))
+  | [], acc => .ok acc
+  | c :: cs, acc =>
+    match acc.find? (·.1 == c.name) with
+    | some (_, m) => if covEq m c.cov then collectCov covEq cs acc else .error (.inconsistentCov c.name)
+    | none => collectCov covEq cs (acc ++ [(c.name, c.cov)])
+
+/-- names of the Monte-Carlo chains of the result: `sorted(set(new_names) - set(new_cov_names))` -/
+def newSampleNames (data : List (Obs α)) : List String :=
   let newNames := Py.sortedSetStr (data.flatMap (fun o => o.names ++ o.covNames))
   let newCovNames := Py.sortedSetStr (data.flatMap (·.covNames))
-  let newSampleNames := newNames.filter (fun n => !(newCovNames.contains n))
-  let newIdl : List (String × Idl) := newSampleNames.map (fun n =>
-    (n, mergeIdx (data.filterMap (fun o => (o.rep? n).map (·.idl)))))
-  -- deltas
-  let zero (n : Nat) : List α := List.replicate n 0
+  newNames.filter (fun n => !(newCovNames.contains n))
+
+/-- `new_idl_d`: per chain the merged configuration list of the inputs that have it -/
+def newIdlD (data : List (Obs α)) : List (String × Idl) :=
+  (newSampleNames data).map (fun n => (n, mergeIdx (data.filterMap (fun o => (o.rep? n).map (·.idl)))))
+
+/-- the fluctuations of chain `n` of the result: Σ_j grad_j · expand(δ_j) (obs.py 1327-1333) -/
+def newDeltas (grad : List α) (data : List (Obs α)) (newIdl : List (String × Idl)) (n : String) (il : Idl) : List α :=
+  let contribs := (List.zip grad data).filterMap (fun (g, o) =>
+    (o.rep? n).map (fun r =>
+      (expandDeltasForMerge r.deltas r.idl il (scaleFactorMissingRep o newIdl (Py.ensOf n))).map (g * ·)))
+  contribs.foldl addLists (List.replicate il.len 0)
+
+/-- the construction of the result once the checks have passed -/
+def derivedCore (func : List α → α) (grad : List α) (data : List (Obs α))
+    (allcov : List (String × List (List α))) : Obs α :=
+  let newCovNames := Py.sortedSetStr (data.flatMap (·.covNames))
+  let newIdl := newIdlD data
   let newReps : List (Rep α) := newIdl.map (fun (n, il) =>
-    let contribs := (List.zip grad data).filterMap (fun (g, o) =>
-      (o.rep? n).map (fun r =>
-        (expandDeltasForMerge r.deltas r.idl il (scaleFactorMissingRep o newIdl (Py.ensOf n))).map (g * ·)))
-    { name := n, idl := il, deltas := contribs.foldl addLists (zero il.len),
+    { name := n, idl := il, deltas := newDeltas grad data newIdl n il,
       rvalue := func (data.map (fun o => match o.rep? n with | some r => r.rvalue | none => o.value)) })
-  -- covariance gradients
   let newCovs : List (CovIn α) := newCovNames.filterMap (fun n =>
     let parts := (List.zip grad data).filterMap (fun (g, o) => (o.cov? n).map (fun c => c.grad.map (g * ·)))
     match allcov.find? (·.1 == n), parts with
     | some (_, m), p :: ps => some { name := n, cov := m, grad := ps.foldl addLists p }
     | _, _ => none)
-  -- a name used for a chain in one input and for a covariance input in another
-  if newCovNames.any (fun n => data.any (fun o => o.names.contains n)) then throw .nameClash
   -- `Obs(new_samples, names, means=..., idl=new_idl)` normalises the idl again
   let reps' := newReps.map (fun r =>
     match Idl.normalise r.idl with
     | .ok i => { r with idl := i }
     | .error _ => r)
-  pure { value := func (data.map (·.value)), reps := reps', covs := newCovs,
-         reweighted := data.any (·.reweighted) }
+  { value := func (data.map (·.value)), reps := reps', covs := newCovs,
+    reweighted := data.any (·.reweighted) }
+
+/-- `derived_observable(func, data, man_grad=grad)` for a scalar result. `func` is the
+    user function (an external parameter of the model); `covEq` stands for `np.allclose`. -/
+def derivedObs (func : List α → α) (grad : List α) (data : List (Obs α))
+    (covEq : List (List α) → List (List α) → Bool) : Except DerErr (Obs α) :=
+  if grad.length != data.length then .error .gradShape else
+  match collectCov covEq (data.flatMap (·.covs)) [] with
+  | .error e => .error e
+  | .ok allcov =>
+    -- a name used for a chain in one input and for a covariance input in another
+    if (Py.sortedSetStr (data.flatMap (·.covNames))).any (fun n => data.any (fun o => o.names.contains n))
+    then .error .nameClash
+    else .ok (derivedCore func grad data allcov)
 
 end PV
